@@ -87,3 +87,83 @@ def w_d11(rec):
 
 
 REPLAYERS = {"pyanalyze.typevar.solve": r_solve, "C15.D11": w_d11}
+
+
+def search_generic_calls():
+    """accepted generic calls: the revealed solution respects the declared bound / is one of the constraints"""
+    import re
+    from replay.checkcode import check_code
+    code = '''
+from typing import TypeVar, Callable, Any, List
+TB = TypeVar("TB", bound=bool)
+TC = TypeVar("TC", int, str)
+T = TypeVar("T")
+def fb(func: Callable[[TB], Any]) -> TB:
+    raise NotImplementedError
+def fc(func: Callable[[TC], Any]) -> TC:
+    raise NotImplementedError
+def fbx(x: TB) -> TB:
+    return x
+def fcx(x: TC) -> TC:
+    return x
+def two(x: T, func: Callable[[T], Any]) -> T:
+    return x
+def takes_int(x: int) -> None: ...
+def takes_bool(x: bool) -> None: ...
+def takes_obj(x: object) -> None: ...
+def takes_bytes(x: bytes) -> None: ...
+def takes_str(x: str) -> None: ...
+def use() -> None:
+    reveal_type(fb(takes_int))
+    reveal_type(fb(takes_obj))
+    reveal_type(fb(takes_bool))
+    reveal_type(fb(takes_bytes))
+    reveal_type(fc(takes_obj))
+    reveal_type(fc(takes_bytes))
+    reveal_type(fc(takes_int))
+    reveal_type(fc(takes_str))
+    reveal_type(fbx(True))
+    reveal_type(fbx(1))
+    reveal_type(fcx(1))
+    reveal_type(fcx(b""))
+    reveal_type(two(1, takes_int))
+    reveal_type(two(1, takes_str))
+    reveal_type(two(True, takes_int))
+'''
+    res = check_code(code)
+    lines = code.split("\n")
+    revealed, diagnosed = {}, set()
+    for f in res:
+        if f["code"].name == "reveal_type":
+            revealed[f["lineno"]] = re.search(r"'(.*)'", f["description"]).group(1)
+        elif f["code"].name in ("incompatible_argument", "incompatible_call"):
+            diagnosed.add(f["lineno"])
+    allowed = {"fb(": {"bool", "Literal[True]", "Literal[False]"}, "fbx(": {"bool", "Literal[True]", "Literal[False]"},
+               "fc(": {"int", "str"}, "fcx(": {"int", "str"}}
+    must_reject = ["fb(takes_bytes)", "fc(takes_bytes)", "fbx(1)", 'fcx(b"")', "two(1, takes_str)"]
+    for ln, text in revealed.items():
+        src = lines[ln - 1].strip()
+        if ln in diagnosed:
+            continue
+        for prefix, ok in allowed.items():
+            if "reveal_type(" + prefix in src and not text.startswith("Any") and text not in ok:
+                return f"`{src}` is accepted with the type variable solved as {text!r}, outside its declared bound/constraints {sorted(ok)}"
+    for m in must_reject:
+        ln = next(i + 1 for i, l in enumerate(lines) if m in l)
+        if ln not in diagnosed:
+            return f"`{m}` has no solution within the declared bound/constraints but is not diagnosed (revealed {revealed.get(ln)!r})"
+    return None
+
+
+def r_c15_bounded(rec):
+    hit = search(lambda b: b != "accepted_by_every_upper_bound.any")
+    if hit is not None:
+        combo, res, bad = hit
+        return True, f"solve({list(map(str, combo))}) = {res}  violates {bad}"
+    msg = search_generic_calls()
+    if msg:
+        return True, msg
+    return False, "solutions respect their bounds on the bounded universe and on the generated generic calls"
+
+
+REPLAYERS["C15.bounded"] = r_c15_bounded
